@@ -1059,9 +1059,6 @@ class SQLModel:
             temp_id_source = [0]
         if using is None:
             using = OrderedSet(extend_node.column_names)
-        using = using.union(
-            extend_node.partition_by, extend_node.order_by, extend_node.reverse
-        )
         subops = OrderedDict()
         for k, op in extend_node.ops.items():
             if k in using:
@@ -1071,6 +1068,9 @@ class SQLModel:
             return extend_node.sources[0].to_near_sql_implementation_(
                 db_model=self, using=using, temp_id_source=temp_id_source
             )
+        using = using.union(
+            extend_node.partition_by, extend_node.order_by, extend_node.reverse
+        )
         if len(using) < 1:
             raise ValueError("must produce at least one column")
         missing = using - set(extend_node.column_names)
